@@ -106,6 +106,7 @@ type c15Outcome struct {
 	ErrIDs   []int  // sentinel ids found in the joined error, join order (nil if not decomposable)
 	IsOK     map[int]bool
 	Bad      string // Go-side observation that contradicts the property
+	Hung     bool   // the request never returned
 	Sent     int
 	StubRuns int
 	StubE2e  int
@@ -234,7 +235,27 @@ func c15Run(t *testing.T, c c15Case) c15Outcome {
 			tm := time.AfterFunc(c.CancelAt, cancel)
 			defer tm.Stop()
 		}
-		res, err := tr.RunTraceroute(ctx, params)
+		var res *result.Results
+		var err error
+		returned := make(chan struct{})
+		go func() {
+			defer close(returned)
+			res, err = tr.RunTraceroute(ctx, params)
+		}()
+		// every stub returns within base + n steps: a request that has not returned after a minute
+		// (virtual; real in the free-running stream) never will
+		limit := time.Minute
+		if c.Free {
+			limit = 20 * time.Second
+		}
+		select {
+		case <-returned:
+		case <-time.After(limit):
+			out.Hung = true
+			out.Bad = fmt.Sprintf("RunTraceroute did not return within %v although every run and probe it could start returns within 100 ms (%d still executing): the request is stuck on something left behind by earlier requests of this process", limit, atomic.LoadInt32(&active))
+			out.Res = "joined -"
+			return
+		}
 		stillRunning := atomic.LoadInt32(&active)
 
 		out.IsOK = map[int]bool{}
@@ -334,7 +355,24 @@ func c15Run(t *testing.T, c c15Case) c15Outcome {
 	if c.Free {
 		body(t)
 	} else {
-		synctest.Test(t, body)
+		// a request stuck on something that lives outside the bubble (a package-level semaphore, a
+		// lock) stops the virtual clock as well: a real-time watchdog around the whole bubble
+		fin := make(chan any, 1)
+		go func() {
+			defer func() { fin <- recover() }()
+			synctest.Test(t, body)
+		}()
+		select {
+		case r := <-fin:
+			// a request that never returns leaves its goroutine blocked in the bubble: synctest reports
+			// that as a panic when the bubble ends — the observation made inside stands
+			if r != nil && !out.Hung {
+				panic(r)
+			}
+		case <-time.After(60 * time.Second):
+			out = c15Outcome{Hung: true, Res: "joined -", IsOK: map[int]bool{},
+				Bad: "RunTraceroute did not return within 60 s of real time although every run and probe it could start returns within 100 virtual ms: the request is stuck on something left behind by earlier requests of this process"}
+		}
 	}
 	return out
 }
@@ -480,6 +518,11 @@ func TestC15(t *testing.T) {
 	lines := make([]string, len(cases))
 	specLines := make([]string, len(cases))
 	for i, c := range cases {
+		if i > 0 && outs[i-1].Hung {
+			// nothing after a stuck request can be trusted (and every further request would hang too)
+			cases, outs, lines, specLines = cases[:i], outs[:i], lines[:i], specLines[:i]
+			break
+		}
 		outs[i] = c15Run(t, c)
 		// completions in completion order = ids sorted by rank
 		order := make([]int, c.n())
